@@ -1,15 +1,34 @@
-/* C12, pruned lattices: lattice_bestpath() after lattice_posterior_prune() (public API, lattice.h).
- * One line per request on stdin:   <grammar as hex> <audio file> <beam> [config key=value ...]
- * For each: decode the whole file, lattice_bestpath, lattice_posterior, lattice_posterior_prune(beam),
- * lattice_bestpath again, and an independent maximum over the remaining start->end paths (memoised DFS over
- * the exit lists).  Output:
+/* C12, pruned lattices: lattice_posterior_prune() (public API, lattice.h) against the model `pruneLat`
+ * (lean/SSVerif/Model/LatticePrune.lean), and lattice_bestpath() after it.
+ * One line per request on stdin:   <grammar as hex> <audio file> <beam>[,<beam>...] [config key=value ...]
+ * For each request one decoder; for each beam: decode the whole file (fresh lattice), lattice_bestpath,
+ * lattice_posterior, dump the lattice, lattice_posterior_prune(beam), dump, lattice_bestpath again and an independent
+ * maximum over the remaining start->end paths (memoised DFS over the exit lists), lattice_posterior_prune(beam) a second
+ * time with the alpha/beta/norm fields of the first pass restored, dump.  Output per beam:
+ *
+ *   PB <beam> <n_frames> <start> <end> <n_nodes> <n_links> <lattice_posterior return>     lattice BEFORE pruning
+ *   Pp <min of alpha+beta-norm over the best path> <its number of links> <its path_scr>
+ *   Pn <word> <sf> <fef> <lef> <node_id>            nodes in dag->nodes order (word = index in a table of strings)
+ *   Pl <src> <dst> <ef> <ascr> <alpha+beta-norm>    links: exit lists in node order; src/dst = node positions
+ *   Pg <fsg start state>    Pa <from> <word|-1> <to>      the search FSG (format of the c11 driver)
+ *   P1 ret=<r> nodes=<n> links=<m> start=<id> end=<id> idmis=<k> listmis=<k>      after the first prune
+ *   Q1n <old position> <id field>                   surviving nodes in list order
+ *   Q1l <old src> <old dst> <src id> <dst id> <ef> <ascr>      exit lists in new node order
+ *   Pbest <score|none> <want|none>
+ *   P2 ... / Q2n / Q2l                              after the second prune (same format)
+ *   PE
  *   prune beam=<b> links_before=<n> pruned=<n> nodes=<n> orphans=<n> best=<score|none> want=<score|none> post=<p>
- * orphans = nodes other than the start node without entries after pruning. */
+ * idmis = nodes whose id field is not their list position; listmis = exit-list elements whose link is not (exactly once)
+ * in the entry list of its target or has a wrong `from`, plus the same for entry lists, plus links to nodes outside the
+ * node list.  orphans = nodes other than the start node without entries after pruning.
+ * Pointers of freed nodes are only compared, never dereferenced. */
 #include <stdio.h>
 #include <stdlib.h>
 #include <string.h>
 #include <soundswallower/decoder.h>
 #include <soundswallower/lattice.h>
+#include <soundswallower/fsg_search.h>
+#include <soundswallower/fsg_model.h>
 #include <soundswallower/err.h>
 #include "common.h"
 
@@ -31,6 +50,193 @@ best_from(lattice_t *dag, latnode_t *n, int32 *memo, char *known)
     return best;
 }
 
+/* table of word strings (lattice node words and FSG words are compared as strings, as the c11 check does) */
+static char *wtab[4096];
+static int n_wtab;
+static int intern(const char *s)
+{
+    int i;
+    if (s == NULL) s = "(null)";
+    for (i = 0; i < n_wtab; i++) if (strcmp(wtab[i], s) == 0) return i;
+    if (n_wtab == 4096) return 4095;
+    wtab[n_wtab] = strdup(s);
+    return n_wtab++;
+}
+
+static latnode_t **old_nodes;
+static int n_old;
+static int old_pos(latnode_t *p)
+{
+    int i;
+    for (i = 0; i < n_old; i++) if (old_nodes[i] == p) return i;
+    return -2;
+}
+
+static int cur_id(lattice_t *dag, latnode_t *p)
+{
+    latnode_t *t;
+    for (t = dag->nodes; t; t = t->next) if (t == p) return t->id;
+    return -1;
+}
+
+static int count_in(latlink_list_t *lst, latlink_t *l)
+{
+    int k = 0;
+    for (; lst; lst = lst->next) if (lst->link == l) k++;
+    return k;
+}
+
+static void dump_after(lattice_t *dag, const char *tag, int32 ret)
+{
+    latnode_t *nd;
+    latlink_list_t *x;
+    int nn = 0, nl = 0, idmis = 0, listmis = 0;
+    for (nd = dag->nodes; nd; nd = nd->next) {
+        if (nd->id != nn) ++idmis;
+        ++nn;
+    }
+    for (nd = dag->nodes; nd; nd = nd->next) {
+        for (x = nd->exits; x; x = x->next) {
+            latlink_t *l = x->link;
+            latnode_t *t;
+            int in_list = 0;
+            ++nl;
+            if (l->from != nd || l->to == NULL) { ++listmis; continue; }
+            for (t = dag->nodes; t; t = t->next) if (t == l->to) in_list = 1;
+            if (!in_list) { ++listmis; continue; }
+            if (count_in(l->to->entries, l) != 1 || count_in(nd->exits, l) != 1) ++listmis;
+        }
+        for (x = nd->entries; x; x = x->next) {
+            latlink_t *l = x->link;
+            latnode_t *t;
+            int in_list = 0;
+            if (l->to != nd || l->from == NULL) { ++listmis; continue; }
+            for (t = dag->nodes; t; t = t->next) if (t == l->from) in_list = 1;
+            if (!in_list) { ++listmis; continue; }
+            if (count_in(l->from->exits, l) != 1 || count_in(nd->entries, l) != 1) ++listmis;
+        }
+    }
+    printf("P%s ret=%d nodes=%d links=%d start=%d end=%d idmis=%d listmis=%d\n", tag, ret, nn, nl,
+           dag->start ? dag->start->id : -1, dag->end ? dag->end->id : -1, idmis, listmis);
+    for (nd = dag->nodes; nd; nd = nd->next)
+        printf("Q%sn %d %d\n", tag, old_pos(nd), nd->id);
+    for (nd = dag->nodes; nd; nd = nd->next)
+        for (x = nd->exits; x; x = x->next) {
+            latlink_t *l = x->link;
+            printf("Q%sl %d %d %d %d %d %d\n", tag, old_pos(l->from), old_pos(l->to),
+                   cur_id(dag, l->from), cur_id(dag, l->to), (int)l->ef, l->ascr);
+        }
+    fflush(stdout);
+}
+
+static void one_beam(decoder_t *d, int16 *buf, size_t ns, int32 beam)
+{
+    lattice_t *dag;
+    latlink_t *b0, *b1;
+    latnode_t *nd;
+    latlink_list_t *x;
+    int32 post, np, np2, want, *memo, norm0;
+    int nn = 0, orphans = 0, nlinks = 0, i, k;
+    char *known;
+    latlink_t **lk;
+    int32 *sa, *sb;
+    fsg_search_t *fs;
+
+    decoder_start_utt(d);
+    decoder_process_int16(d, buf, ns, FALSE, TRUE);
+    decoder_end_utt(d);
+    dag = decoder_lattice(d);
+    if (!dag) { printf("prune nolattice\n"); return; }
+    n_old = 0;
+    for (nd = dag->nodes; nd; nd = nd->next) {
+        ++n_old;
+        for (x = nd->exits; x; x = x->next) ++nlinks;
+    }
+    old_nodes = malloc(sizeof(*old_nodes) * (n_old + 1));
+    for (i = 0, nd = dag->nodes; nd; nd = nd->next) old_nodes[i++] = nd;
+    b0 = lattice_bestpath(dag, 0.05f);
+    post = b0 ? lattice_posterior(dag, 0.05f) : 0;
+    if (b0) {
+        printf("PB %d %d %d %d %d %d %d\n", beam, (int)dag->n_frames, old_pos(dag->start), old_pos(dag->end), n_old, nlinks, post);
+        {
+            /* the best path as lattice_bestpath left it (best_prev chain of the returned link): smallest value of
+             * alpha + beta - norm on it, its length, its score */
+            latlink_t *q;
+            int32 mn = 2000000000, len = 0;
+            for (q = b0; q && len <= nlinks; q = q->best_prev) {
+                int32 v = q->alpha + q->beta - dag->norm;
+                if (v < mn) mn = v;
+                ++len;
+            }
+            printf("Pp %d %d %d\n", mn, len, b0->path_scr);
+        }
+        for (nd = dag->nodes; nd; nd = nd->next)
+            printf("Pn %d %d %d %d %d\n", intern(ps_latnode_word(dag, nd)), (int)nd->sf, nd->fef, nd->lef, nd->node_id);
+        for (nd = dag->nodes; nd; nd = nd->next)
+            for (x = nd->exits; x; x = x->next)
+                printf("Pl %d %d %d %d %d\n", old_pos(x->link->from), old_pos(x->link->to), (int)x->link->ef, x->link->ascr,
+                       x->link->alpha + x->link->beta - dag->norm);
+        fs = (fsg_search_t *)d->search;
+        if (fs && fs->fsg) {
+            fsg_model_t *fsg = fs->fsg;
+            printf("Pg %d\n", fsg_model_start_state(fsg));
+            for (i = 0; i < fsg_model_n_state(fsg); i++) {
+                fsg_arciter_t *it;
+                for (it = fsg_model_arcs(fsg, i); it; it = fsg_arciter_next(it)) {
+                    fsg_link_t *l = fsg_arciter_get(it);
+                    int w = fsg_link_wid(l);
+                    printf("Pa %d %d %d\n", fsg_link_from_state(l), w >= 0 ? intern(fsg_model_word_str(fsg, w)) : -1, fsg_link_to_state(l));
+                }
+            }
+        }
+        fflush(stdout);
+    }
+    np = b0 ? lattice_posterior_prune(dag, beam) : 0;
+    if (b0) dump_after(dag, "1", np);
+    /* remember alpha/beta/norm of what is left: lattice_bestpath recomputes the alphas */
+    k = 0;
+    for (nd = dag->nodes; nd; nd = nd->next) {
+        ++nn;
+        if (nd != dag->start && nd->entries == NULL) ++orphans;
+        for (x = nd->exits; x; x = x->next) ++k;
+    }
+    lk = malloc(sizeof(*lk) * (k + 1));
+    sa = malloc(sizeof(*sa) * (k + 1));
+    sb = malloc(sizeof(*sb) * (k + 1));
+    k = 0;
+    for (nd = dag->nodes; nd; nd = nd->next)
+        for (x = nd->exits; x; x = x->next) { lk[k] = x->link; sa[k] = x->link->alpha; sb[k] = x->link->beta; ++k; }
+    norm0 = dag->norm;
+    memo = calloc(nn + 1, sizeof(*memo));
+    known = calloc(nn + 1, 1);
+    want = best_from(dag, dag->start, memo, known);
+    b1 = lattice_bestpath(dag, 0.05f);
+    if (b0) {
+        printf("Pbest ");
+        if (b1) printf("%d", b1->path_scr); else printf("none");
+        if (want != NONE) printf(" %d\n", want); else printf(" none\n");
+        fflush(stdout);
+    }
+    {
+        int32 best_scr = b1 ? b1->path_scr : 0;
+        int have_best = b1 != NULL;
+        if (b0) {
+            for (i = 0; i < k; i++) { lk[i]->alpha = sa[i]; lk[i]->beta = sb[i]; }
+            dag->norm = norm0;
+            np2 = lattice_posterior_prune(dag, beam);
+            dump_after(dag, "2", np2);
+            printf("PE\n");
+        }
+        printf("prune beam=%d links_before=%d pruned=%d nodes=%d orphans=%d best=", beam, nlinks, np, nn, orphans);
+        if (have_best) printf("%d", best_scr); else printf("none");
+    }
+    if (want != NONE) printf(" want=%d", want); else printf(" want=none");
+    printf(" post=%d\n", post);
+    fflush(stdout);
+    free(memo); free(known); free(lk); free(sa); free(sb); free(old_nodes);
+    old_nodes = NULL; n_old = 0;
+}
+
 int main(int argc, char **argv)
 {
     static char line[1 << 16];
@@ -41,21 +247,13 @@ int main(int argc, char **argv)
     while (fgets(line, sizeof(line), stdin)) {
         int n = vf_words(line, w, 64), i;
         size_t len, ns;
-        char *gram;
+        char *gram, *bp;
         config_t *cfg;
         decoder_t *d;
-        lattice_t *dag;
-        latlink_t *b0, *b1;
-        latnode_t *nd;
-        latlink_list_t *x;
         FILE *fh;
         int16 *buf;
-        int32 beam, post, np, want, *memo;
-        int nn = 0, orphans = 0, nlinks = 0;
-        char *known;
         if (n < 3) continue;
         gram = (char *)vf_parse_hex(w[0], &len);
-        beam = atoi(w[2]);
         cfg = config_init(NULL);
         config_set_str(cfg, "hmm", hmmdir);
         config_set_str(cfg, "loglevel", "FATAL");
@@ -72,30 +270,11 @@ int main(int argc, char **argv)
         buf = malloc(ns * 2 + 2);
         ns = fread(buf, 2, ns, fh);
         fclose(fh);
-        decoder_start_utt(d);
-        decoder_process_int16(d, buf, ns, FALSE, TRUE);
-        decoder_end_utt(d);
-        dag = decoder_lattice(d);
-        if (!dag) { printf("prune nolattice\n"); free(buf); free(gram); decoder_free(d); continue; }
-        for (nd = dag->nodes; nd; nd = nd->next)
-            for (x = nd->exits; x; x = x->next) ++nlinks;
-        b0 = lattice_bestpath(dag, 0.05f);
-        post = b0 ? lattice_posterior(dag, 0.05f) : 0;
-        np = b0 ? lattice_posterior_prune(dag, beam) : 0;
-        for (nd = dag->nodes; nd; nd = nd->next) {
-            ++nn;
-            if (nd != dag->start && nd->entries == NULL) ++orphans;
-        }
-        memo = calloc(nn + 1, sizeof(*memo));
-        known = calloc(nn + 1, 1);
-        want = best_from(dag, dag->start, memo, known);
-        b1 = lattice_bestpath(dag, 0.05f);
-        printf("prune beam=%d links_before=%d pruned=%d nodes=%d orphans=%d best=", beam, nlinks, np, nn, orphans);
-        if (b1) printf("%d", b1->path_scr); else printf("none");
-        if (want != NONE) printf(" want=%d", want); else printf(" want=none");
-        printf(" post=%d\n", post);
-        free(memo); free(known); free(buf); free(gram);
+        for (bp = strtok(w[2], ","); bp; bp = strtok(NULL, ","))
+            one_beam(d, buf, ns, atoi(bp));
+        free(buf); free(gram);
         decoder_free(d);
     }
+    for (; n_wtab > 0; --n_wtab) free(wtab[n_wtab - 1]);
     return 0;
 }
